@@ -84,21 +84,25 @@ Proof.
       + rewrite Q1. cbn [exec_ucalls fst snd]. split; [exact Hd|]. constructor; [reflexivity|constructor]. }
   destruct (resolve_pending s id p a) as [[s1 o1] ready]. cbn [fst snd] in Hres. destruct Hres as [S1 F1].
   cbn [app]. destruct ready; [|split; assumption].
-  destruct rd; [|split; assumption].
-  (* read phase *)
-  unfold read_from_remote. cbv zeta.
-  match goal with |- context [deliver_chunks s1 ?e (a_chunks a)] =>
-    pose proof (deliver_quiet id (r_peer p) (a_chunks a) s1 Q4) as [E2 F2];
-    change (id, r_peer p) with e in E2, F2;
-    destruct (deliver_chunks s1 e (a_chunks a)) as [s2 o2] end.
-  cbn [fst snd] in E2, F2. subst s2.
-  destruct (a_read a).
-  - rewrite Q2. cbn [exec_ucalls].
-    pose proof (dereg_same id s1) as Hd. destruct (deregister_remote s1 id) as [s4 won]. cbn [fst] in Hd.
-    destruct won.
-    + rewrite Q3. cbn [exec_ucalls fst snd]. split; [eapply same_trans; eauto|].
-      apply Forall_app. split; [exact F1|]. apply Forall_app. split; [exact F2|]. cbn [app]. constructor; [reflexivity|constructor].
-    + cbn [fst snd]. split; [eapply same_trans; eauto|].
-      apply Forall_app. split; [exact F1|]. rewrite app_nil_r. exact F2.
-  - cbn [fst snd]. split; [exact S1|]. apply Forall_app. split; assumption.
+  (* read phase (a Read event, or a Write event that completed the handshake) *)
+  assert (Hread : same_elsewhere id s (fst (read_from_remote s1 id p a)) /\ Forall (about id) (o1 ++ snd (read_from_remote s1 id p a))).
+  { unfold read_from_remote. cbv zeta.
+    match goal with |- context [deliver_chunks s1 ?e (a_chunks a)] =>
+      pose proof (deliver_quiet id (r_peer p) (a_chunks a) s1 Q4) as [E2 F2];
+      change (id, r_peer p) with e in E2, F2;
+      destruct (deliver_chunks s1 e (a_chunks a)) as [s2 o2] end.
+    cbn [fst snd] in E2, F2. subst s2.
+    destruct (a_read a).
+    - rewrite Q2. cbn [exec_ucalls].
+      pose proof (dereg_same id s1) as Hd. destruct (deregister_remote s1 id) as [s4 won]. cbn [fst] in Hd.
+      destruct won.
+      + rewrite Q3. cbn [exec_ucalls fst snd]. split; [eapply same_trans; eauto|].
+        apply Forall_app. split; [exact F1|]. apply Forall_app. split; [exact F2|]. cbn [app]. constructor; [reflexivity|constructor].
+      + cbn [fst snd]. split; [eapply same_trans; eauto|].
+        apply Forall_app. split; [exact F1|]. rewrite app_nil_r. exact F2.
+    - cbn [fst snd]. split; [exact S1|]. apply Forall_app. split; assumption. }
+  destruct rd.
+  - destruct (read_from_remote s1 id p a) as [s2 o2]. cbn [fst snd] in *. exact Hread.
+  - destruct (r_ready p); [split; assumption|].
+    destruct (read_from_remote s1 id p a) as [s2 o2]. cbn [fst snd] in *. exact Hread.
 Qed.
